@@ -26,9 +26,12 @@ Vias == <<"load", "load_strn", "create", "create_strn", "fromfile", "fromfp", "c
 L(via, doc, kds) == [op |-> "Load", ring |-> 0, via |-> via, doc |-> doc, keys |-> kds]
 Good == OctKey(48, "b", "HS384", "good")
 \* a defective key alone, as a single JWK, and between two good ones in a set
-DefectScripts ==
-  UNION { { <<L("create", "single", <<d>>)>>, <<L("create_strn", "keys", <<Good, d, Good>>), L("load", "keys", <<d>>)>> } :
-          d \in UNION { Defects(k) : k \in Baselines } }
+\* (a family indexed by baseline and first defective member: big unions are quadratic in TLC, see Interp.tla)
+KM == UNION { { <<k, m>> : m \in Members(k) } : k \in Baselines }
+DefsAt(k, m) == { d \in Defects(k) : d.defect[1][1] = m }
+DefectFam == [km \in KM |->
+                { <<L("create", "single", <<d>>)>> : d \in DefsAt(km[1], km[2]) }
+                \cup { <<L("create_strn", "keys", <<Good, d, Good>>), L("load", "keys", <<d>>)>> : d \in DefsAt(km[1], km[2]) }]
 \* entry points x document classes with well-formed content
 Raw(obj) == [base |-> "rawobj", kty |-> NONE, bits |-> 0, crv |-> NONE, var |-> "a", priv |-> 0, alg |-> NONE, kid |-> NONE,
              use |-> NONE, ops |-> <<>>, defect |-> <<>>, bad |-> 1, obj |-> obj]
@@ -58,8 +61,8 @@ EntryScripts ==
   \cup { <<L("create", "keys", <<Good>>), T(Vias[i], "jsonother", t)>> : i \in {1, 2}, t \in JsonOther }
   \cup { <<L("create", "keys", <<Raw(1), Raw("x"), Good, Raw(<<>>), Raw([a |-> 1])>>)>>,
          <<L("create", "keys", <<>>)>>, <<T("create", "anyraw", "{\"keys\":{\"kty\":\"oct\"}}")>>, <<T("create", "anyraw", "{\"keys\":5}")>> }
-C07Scripts == DefectScripts \cup EntryScripts \cup NulScripts
-MCSpec == ISpecWith(C07Scripts)
+\* (families, not their union: see ISpecFam in Interp.tla)
+MCSpec == ISpecP(InFam(DefectFam) \/ script \in EntryScripts \/ script \in NulScripts)
 \* on the specification: a load adds exactly one item per element / one for any other JSON
 \* document / none for text that is not JSON, appended after what was there
 LoadAppends ==
